@@ -28,7 +28,13 @@ pub enum Event {
         id_kind: u8,
     },
     UnknownRequest { method: String, uri: String, id_kind: u8 },
-    UnknownNotification { method: String, uri: String },
+    UnknownNotification {
+        method: String,
+        uri: String,
+        /// for $/cancelRequest: (event index, id kind) of an earlier request of this session whose id is named
+        #[serde(default)]
+        refers_to: Option<(usize, u8)>,
+    },
     ClientResponse { id: i32, error: bool },
     /// the transport delivers the previous notification a second time
     DupPrev,
@@ -127,8 +133,12 @@ pub fn event_message(ev: &Event, index: usize) -> Option<Message> {
             };
             Message::Request(Request { id: req_id(index, *id_kind), method: method.clone(), params })
         }
-        Event::UnknownNotification { method, uri } => {
+        Event::UnknownNotification { method, uri, refers_to } => {
             let params = match method.as_str() {
+                "$/cancelRequest" if refers_to.is_some() => {
+                    let (i, k) = refers_to.unwrap();
+                    json!({"id": serde_json::to_value(req_id(i, k)).unwrap_or(Value::Null)})
+                }
                 "textDocument/didClose" | "textDocument/didSave" => json!({"textDocument": {"uri": expand_uri(uri)}}),
                 "$/cancelRequest" => json!({"id": 1}),
                 "$/setTrace" => json!({"value": "off"}),
